@@ -47,10 +47,6 @@ pub fn validate_tag_path<T: EbmlSpecification<T> + EbmlTag<T> + Clone>(tag_id: u
     for item in doc_path {
         let current_node_id = item.0;
 
-        if !item.1.is_known() && is_ended_by::<T>(current_node_id, tag_id) {
-            return true;
-        }
-
         if path_marker >= path.len() {
             return false;
         }
